@@ -193,6 +193,7 @@ def section_herm():
         ([0.0, 2.0, 3.5], [0, 1, 2]),
         ([1.0, 1.0, 4.0, 1.0 + 2.0, 7.0], [0, 0, 1, 1, 1]),
         ([0.1 + 0.2, 0.3, 2.0, 3.0], [0, 0, 1, 1]),        # degenerate within atol but not bit-identical
+        ([0.0, 1.0, 0.0, 2.0, 5.0], [0, 0, 0, 0, 1]),        # degenerate level on non-adjacent states
     ]
     for li, (E, sub) in enumerate(layouts):
         for fmt in ("dense", "sparse"):
@@ -549,14 +550,15 @@ def section_projector():
         fail("projector", "not idempotent for biorthonormal vectors")
 
 
-for name in sections:
-    fn = globals().get("section_" + name)
-    if fn is None:
-        continue
-    try:
-        fn()
-    except Exception:
-        import traceback
-        fail(name, "battery section crashed", error=traceback.format_exc()[-1200:])
-print(json.dumps({"cases": cases, "failures": failures}))
-sys.exit(1 if failures else 0)
+if __name__ == "__main__":
+    for name in sections:
+        fn = globals().get("section_" + name)
+        if fn is None:
+            continue
+        try:
+            fn()
+        except Exception:
+            import traceback
+            fail(name, "battery section crashed", error=traceback.format_exc()[-1200:])
+    print(json.dumps({"cases": cases, "failures": failures}))
+    sys.exit(1 if failures else 0)
